@@ -189,7 +189,8 @@ func Palette(size int) []Field {
 			p = append(p, fld(e, Plain))
 		}
 		p = append(p, fld(sc(Bool), Ptr), fld(sc(Int32), ListOf), fld(sc(Bool), ListOf), mp(String, sc(Int32)), fld(sc(Int32), SetOf),
-			fld(inner[0], Plain), fld(inner[2], Ptr), fld(inner[2], ListOf), opt(fld(sc(Int32), Plain), "required"), opt(fld(sc(Bool), Plain), "required"))
+			fld(inner[0], Plain), fld(inner[2], Ptr), fld(inner[2], ListOf), opt(fld(sc(Int32), Plain), "required"), opt(fld(sc(Bool), Plain), "required"),
+			fld(inner[2], SetOf))
 		return p
 	}
 	for _, e := range scalars {
@@ -222,7 +223,10 @@ func Palette(size int) []Field {
 	for _, k := range []Kind{Int32, Int, Int64, Int8, Int16} {
 		p = append(p, opt(fld(sc(k), Plain), "enum"))
 	}
-	// lists of lists / sets inside lists
+	// sets of structs (the items leave different fields at zero)
+	for _, e := range []Elem{inner[0], inner[2], inner[4]} {
+		p = append(p, fld(e, SetOf))
+	}
 	return p
 }
 
